@@ -507,11 +507,12 @@ def run(ctx, col: Collector):
     def leaks():
         # "No ... fragment of a rejected document leaks into a returned result": elements matched before the error are handed to the parser object of that
         # call and die with it.  That needs the collecting state to be per call - no class-level or module-level container is written while parsing
-        # (obligations shared with C11-shared) and the entry points create a new parser per call (C11-fresh).
+        # (obligations shared with C11-shared), nothing on the way is memoised (C11-nondet), the collecting actions sit on per-parser copies of the grammar (C11-copy)
+        # and the entry points create a new parser per call (C11-fresh).
         sub = ctx.sub('c11', col.prop)
         n = 0
         for o in sub.obs:
-            if o.rule in ('C11-shared', 'C11-fresh') and not o.construct.startswith('floor:'):
+            if o.rule in ('C11-shared', 'C11-fresh', 'C11-nondet', 'C11-copy') and not o.construct.startswith('floor:'):
                 n += 1
                 col.obs.append(type(o)(col.prop, 'C07-leak', o.construct, o.status, o.msg, o.file, o.line, o.extra))
         col.floor('C07-leak', 'per-call state obligations', n, 4)
